@@ -2,7 +2,7 @@ import Lean
 import XtModel.Generated.PanicSites
 import XtModel.Generated.Consts
 import XtModel.Model.Sites
-import XtModel.Props.C04Sites
+import XtModel.Props.C17Sites
 import XtModel.Lemmas.Guards
 import XtModel.Lemmas.EncoderBounds
 import XtModel.Lemmas.ParserBinding
@@ -48,7 +48,7 @@ What is missing for the full statement, and delegated: aliasing (the raw
 discipline.  Miri / AddressSanitizer runs of the same cases (`run_sanitizer.sh`)
 are the search engine for a concrete report, not the verdict.
 
-Obligations (`props/C17.py`): `sites_covered`, `unsafe_sites_covered`,
+Obligations (`props/C17.py`): `unsafe_sites_covered`,
 `unsafe_accounts_wellformed`, `c17_sites_covered`,
 `read_handler_total`, `read_handler_success_iff`, `events_drop_safe`,
 `unchecked_char_is_scalar`, `surrogate_pair_arith`, `bmp_unit_is_scalar`,
@@ -61,27 +61,22 @@ open Xt.Sites
 
 /-! ## The inventory -/
 
-/-- Every panic / unsafe site of the current sources is accounted for.
-(The `decide` runs in `Props/C04Sites.lean`, whenever the inventory changes.) -/
-theorem sites_covered : uncovered Xt.Generated.sites covered = [] :=
-  Xt.Props.C04Sites.sites_covered
-
 /-- Every site that exists because of `unsafe` is accounted for by a
 precondition theorem or a `delegated:` tag — not by any other reason tag. -/
 theorem unsafe_sites_covered :
     uncovered (Xt.Generated.sites.filter isUnsafeKind) (covered.filter isUnsafeAccount) = [] :=
-  Xt.Props.C04Sites.unsafe_sites_covered
+  Xt.Props.C17Sites.unsafe_sites_covered
 
 /-- `unsafeAccounts` holds only theorem names and `delegated:` tags. -/
 theorem unsafe_accounts_wellformed :
     unsafeAccounts.all (fun n => hasPrefix "Xt." n || hasPrefix "delegated:" n) = true :=
-  Xt.Props.C04Sites.unsafe_accounts_wellformed
+  Xt.Props.C17Sites.unsafe_accounts_wellformed
 
 /-- The sites of the files this property is about. -/
 def c17_sites : List Entry := Xt.Generated.sites.filter isC17
 
 theorem c17_sites_covered : uncovered c17_sites covered = [] :=
-  Xt.Props.C04Sites.c17_sites_covered
+  Xt.Props.C17Sites.c17_sites_covered
 
 /-- Theorems named in `covered` that live on a branch not merged yet. -/
 def pendingTheorems : List String := []
@@ -351,7 +346,6 @@ theorem detect_len_agrees (bytes : List Nat) :
 -- `pendingTheorems` lists the ones on unmerged branches).
 #check_account_names
 
-#print axioms sites_covered
 #print axioms unsafe_sites_covered
 #print axioms unsafe_accounts_wellformed
 #print axioms c17_sites_covered
